@@ -26,7 +26,7 @@ structure Spec where
   env : Option Env
 
 /-- `cfg` is a valid configuration document in which server `n` is configured as `s`:
-`{"mcpServers": {n: {"command": <non-empty string>, "args"?: [strings], "env"?: {name: string}, …}, …}, …}`.
+`{"mcpServers": {n: {"command": <non-empty string>, "args"?: [strings], "env"?: {name: string} | null, …}, …}, …}`.
 Nothing is required of `timeout`, of other members of the server object, of other servers or of
 other top-level members. -/
 def ValidFor (cfg : J) (n : String) (s : Spec) : Prop :=
@@ -34,7 +34,8 @@ def ValidFor (cfg : J) (n : String) (s : Spec) : Prop :=
     cfg = .obj top ∧ jget top "mcpServers" = some (.obj servers) ∧ jget servers n = some (.obj sc)
     ∧ jget sc "command" = some (.str s.command) ∧ s.command ≠ ""
     ∧ ((jget sc "args" = none ∧ s.args = []) ∨ jget sc "args" = some (argsJ s.args))
-    ∧ ((jget sc "env" = none ∧ s.env = none) ∨ ∃ e, jget sc "env" = some (envJ e) ∧ s.env = some e)
+    ∧ (((jget sc "env" = none ∨ jget sc "env" = some .null) ∧ s.env = none)
+        ∨ ∃ e, jget sc "env" = some (envJ e) ∧ s.env = some e)
 
 /-- the launch the configuration asks for: `command :: args`, the configured environment when it
 is a non-empty mapping and the library default environment otherwise, followed by `initialize` -/
@@ -56,7 +57,8 @@ theorem c20_load_configured (cfg : J) (n : String) (s : Spec) (h : ValidFor cfg 
     · simp [ha, hs, strList, strs]
     · simp [ha, strList_argsJ]
   have henv : optEnv ((jget sc "env").getD .null) = some s.env := by
-    rcases h6 with ⟨he, hn⟩ | ⟨e, he, hn⟩
+    rcases h6 with ⟨he | he, hn⟩ | ⟨e, he, hn⟩
+    · simp [he, hn, optEnv]
     · simp [he, hn, optEnv]
     · simp [he, hn, optEnv_envJ]
   simp [load, serverConfig, params, h1, h2, h3, hf, asStr, hargs, henv]
